@@ -61,7 +61,7 @@ Comparison
     canon(tree, value)            canonical comparable form (sets sorted, tuples padded, floats by bits,
                                   decimal negative zero folded, EMPTY kept distinct from None)
     same(tree, a, b)              canon equality
-    diffs(tree, a, b) -> [ {"path","leaf","kind","a","b"} ]   kinds: value | null | null-as-empty | empty-as-null |
+    diffs(tree, a, b) -> [ {"path","leaf","kind","a","b","parent"} ]   kinds: value | null | null-as-empty | empty-as-null |
                                   length | sub-ms-drift   (a = expected, b = observed)
 
 Python objects
@@ -770,43 +770,47 @@ def same(tree, a, b):
 
 
 def diffs(tree, a, b, limit=8):
-    """structural differences between expected a and observed b (tagged values)"""
+    """structural differences between expected a and observed b (tagged values); every record carries the
+    kind of container the differing position lives in ("parent": list|set|map|tuple|udt|vector|None)"""
     out = []
-    _diff(tree, canon(tree, a), canon(tree, b), [], out, limit, tree)
+    _diff(tree, canon(tree, a), canon(tree, b), [], out, limit, None)
     return out
 
 
 def _leafname(tree):
-    t = core(tree)["t"]
-    return t
+    return core(tree)["t"]
 
 
-def _diff(tree, a, b, path, out, limit, _root):
+def _diff(tree, a, b, path, out, limit, parent):
     if len(out) >= limit or a == b:
         return
     t = tree["t"]
     if t in ("frozen", "reversed"):
-        return _diff(tree["of"], a, b, path, out, limit, _root)
+        return _diff(tree["of"], a, b, path, out, limit, parent)
+
+    def rec(leaf, kind, x, y):
+        out.append({"path": list(path), "leaf": leaf, "kind": kind, "a": x, "b": y, "parent": parent})
+
     if a is None or b is None or _is_empty(a) or _is_empty(b):
         kind = "null"
         if a is None and (_is_empty(b) or (t in _STRINGY and b == "")):
             kind = "null-as-empty"
         elif b is None and t in _STRINGY and a == "":
             kind = "empty-as-null"
-        out.append({"path": list(path), "leaf": _leafname(tree), "kind": kind, "a": a, "b": b})
+        rec(_leafname(tree), kind, a, b)
         return
     if t in _SCALAR_SET:
         kind = "value"
         if t == "timestamp" and isinstance(b, dict) and "micros" in b and isinstance(a, int):
             if abs(b["micros"] - a * 1000) < 1000:
                 kind = "sub-ms-drift"
-        out.append({"path": list(path), "leaf": t, "kind": kind, "a": a, "b": b})
+        rec(t, kind, a, b)
         return
     if not isinstance(a, list) or not isinstance(b, list):
-        out.append({"path": list(path), "leaf": t, "kind": "value", "a": a, "b": b})
+        rec(t, "value", a, b)
         return
     if len(a) != len(b):
-        out.append({"path": list(path), "leaf": t, "kind": "length", "a": len(a), "b": len(b)})
+        rec(t, "length", len(a), len(b))
         return
     if t == "set":
         # compare as multisets: drop the common elements, pair what is left over in canonical order
@@ -819,21 +823,21 @@ def _diff(tree, a, b, path, out, limit, _root):
             else:
                 rest_a.append(x)
         rest_b = sorted((json.loads(k) for k in kb), key=_sort_key)
-        for i, (x, y) in enumerate(zip(rest_a, rest_b)):
-            _diff(tree["of"], x, y, path + ["*"], out, limit, _root)
+        for x, y in zip(rest_a, rest_b):
+            _diff(tree["of"], x, y, path + ["*"], out, limit, "set")
     elif t in ("list", "vector"):
         for i, (x, y) in enumerate(zip(a, b)):
-            _diff(tree["of"], x, y, path + [i], out, limit, _root)
+            _diff(tree["of"], x, y, path + [i], out, limit, t)
     elif t == "map":
         for i, (x, y) in enumerate(zip(a, b)):
-            _diff(tree["k"], x[0], y[0], path + [i, "k"], out, limit, _root)
-            _diff(tree["v"], x[1], y[1], path + [i, "v"], out, limit, _root)
+            _diff(tree["k"], x[0], y[0], path + [i, "k"], out, limit, "map")
+            _diff(tree["v"], x[1], y[1], path + [i, "v"], out, limit, "map")
     else:
         subs = tree["of"] if t == "tuple" else [f[1] for f in tree["fields"]]
         for i, (sub, x, y) in enumerate(zip(subs, a, b)):
-            _diff(sub, x, y, path + [i], out, limit, _root)
+            _diff(sub, x, y, path + [i], out, limit, t)
         if len(a) > len(subs):
-            out.append({"path": list(path), "leaf": t, "kind": "length", "a": len(a), "b": len(b)})
+            rec(t, "length", len(a), len(b))
 
 
 # ---------------------------------------------------------------------------------------------------
